@@ -129,7 +129,7 @@ theorem initVars_lookup (x : String) (v : Val)
     · left; injection h with h; exact h.symm
     · right; exact lookup_builtins x v _ h
 
-theorem globalNames_fo : ∀ n ∈ VM.globalNames, okSym n = true → n ∈ foBuiltins := by decide
+theorem globalNames_fo : ∀ n ∈ VM.globalNames, okSym n = true → (n ∈ foBuiltins ∨ (n = "force" ∨ n = "apply" ∨ n = "map")) := by decide
 
 theorem relF_initSt (m : Nat → Nat) : RelF m initSt Ref.initSt 0 := by
   have hsc : ∀ i, 0 < i → scopeOf initSt i = {} := fun i hi => by
@@ -137,7 +137,7 @@ theorem relF_initSt (m : Nat → Nat) : RelF m initSt Ref.initSt 0 := by
     | zero => omega
     | succ i => rfl
   refine ⟨rfl, ?_, ⟨_, rfl, rfl, rfl⟩, ?_, rfl, ⟨none, ChainF.root _ rfl rfl rfl, FnChainF.root _ 0 (by decide) rfl ⟨[], rfl⟩⟩, ?_,
-    rfl, rfl, globals_initSt, ?_, fun _ _ _ _ _ _ _ => rfl⟩
+    rfl, rfl, globals_initSt, ?_, fun _ _ _ _ _ _ _ => rfl, ⟨rfl, fun id lz h => by simp [initSt] at h⟩⟩
   · intro i x
     cases i with
     | zero =>
